@@ -224,7 +224,7 @@ def _check_plan(d):
                 n += 1
                 t1, subs1 = out[0]
                 fails.extend(
-                    _plan_failures(t1, shape, subs1, {"kind": "back", "added_ones": added, "target_contains_subsizes": True})
+                    _plan_failures(t1, shape, subs1, {"kind": "back", "added_ones": added, "target_contains_subsizes": False})
                 )
         fp = ("plan", shape, tuple(d["base"]))
     return {"fingerprint": repr(fp), "nontrivial": True, "failures": fails[:5], "sample": {"shape": list(shape), "n_targets": n}}
@@ -464,7 +464,9 @@ def _check_array(d):
             add(ob, what, kind=kind, target_empty=len(newshape) == 0)
         if roundtrip:
             fwd = feats0["target_contains_subsizes"]
-            feats0["target_contains_subsizes"] = bool(fwd or contains_subsizes(shape, y))
+            # sub sizes of axes fused by the forward trip match the original shape on purpose; only the
+            # fused axes x already had can be matched by accident on the way back
+            feats0["target_contains_subsizes"] = bool(fwd or contains_subsizes(shape))
             try:
                 z = y.reshape(shape)
             except Exception as e:  # noqa: BLE001
